@@ -30,6 +30,13 @@ class BasicZoneProcessorTest_createAbbreviation;
 class BasicZoneProcessorTest_calcStartDayOfMonth;
 class BasicZoneProcessorTest_calcRuleOffsetMinutes;
 
+#if ACE_TIME_VERIF_HOOKS
+// verification hooks (compiled only with -DACE_TIME_VERIF_HOOKS=1, which the
+// /verif harness passes when the environment variable ACETIME_VERIF is set)
+#define ACE_TIME_VERIF_HAS_H1 1
+extern long ace_time_verif_basic_dropped;
+#endif
+
 namespace ace_time {
 
 template<uint8_t SIZE, uint8_t TYPE, typename ZS, typename ZI, typename ZIB>
@@ -754,6 +761,11 @@ class BasicZoneProcessor: public ZoneProcessor {
       // history. But it seems like too much work right now to try to dig that
       // out, just to implement the explicit check for kMaxCacheEntries. It
       // would mean maintaining another version of zone_specifier.py.
+#if ACE_TIME_VERIF_HOOKS
+      // verification hook (guarded): count attempts to add a Transition beyond
+      // the cache capacity, which the next line silently drops
+      if (mNumTransitions >= kMaxCacheEntries) ace_time_verif_basic_dropped++;
+#endif
       if (mNumTransitions >= kMaxCacheEntries) return;
 
       // insert new element at the end of the list
